@@ -26,7 +26,10 @@ fn histex_part(run: &mut Run, tier: &str, plans: &[HxPlan], owned: &[&str], note
     let mut decoder_disagreements = 0u64;
     for p in plans {
         let fam = family(p.family);
-        let depth = if tier == "quick" { p.quick_depth } else { p.thorough_depth };
+        let mut depth = if tier == "quick" { p.quick_depth } else { p.thorough_depth };
+        if tier == "quick" && crate::common::is_sub() {
+            depth = depth.min(2); // reduced run on the second configuration
+        }
         let st = histex::explore(run, &fam, depth, per, owned);
         states += st.states;
         trans += st.transitions;
